@@ -175,4 +175,112 @@ theorem reach1_agree : (reach1.all fun σ =>
       (decide (σ.c.connKeys = σ.s.connKeys) && decide (σ.c.connSrtp = σ.s.connSrtp) && σ.c.connKeys.isSome)) = true := by
   decide +kernel
 
+/-! ### the timed closed system (handshake deadline) -/
+
+theorem deadlineTicks_eq : deadlineTicks = 30 := by decide
+
+/-- while the deadline of neither endpoint is enabled a timed schedule is its untimed projection -/
+theorem TSys.run_before_deadline (W : World) (D : Nat) : ∀ (acts : List TAct) (τ : TSys),
+    τ.kc + ticksC acts + 1 < D → τ.ks + ticksS acts + 1 < D →
+    (τ.run W D acts).σ = τ.σ.run W (untimed acts) ∧ (τ.run W D acts).kc = τ.kc + ticksC acts ∧ (τ.run W D acts).ks = τ.ks + ticksS acts := by
+  intro acts
+  induction acts with
+  | nil => intro τ _ _; simp [TSys.run, Sys.run, untimed, ticksC, ticksS]
+  | cons a as ih =>
+    intro τ hc hs
+    have key : ∀ τ' : TSys, τ' = τ.step W D a →
+        τ'.σ = (match a with | .net a => τ.σ.step W a | _ => τ.σ) ∧
+        τ'.kc = τ.kc + (if a = .net .tickC then 1 else 0) ∧ τ'.ks = τ.ks + (if a = .net .tickS then 1 else 0) := by
+      intro τ' h
+      subst h
+      cases a with
+      | net a => cases a <;> simp [TSys.step]
+      | deadlineC =>
+        have : ¬ D ≤ τ.kc + 1 := by omega
+        simp [TSys.step, this]
+      | deadlineS =>
+        have : ¬ D ≤ τ.ks + 1 := by omega
+        simp [TSys.step, this]
+    obtain ⟨k1, k2, k3⟩ := key _ rfl
+    have tc : ticksC (a :: as) = (if a = .net .tickC then 1 else 0) + ticksC as := by
+      simp only [ticksC, List.filter_cons]; split <;> simp_all <;> omega
+    have ts : ticksS (a :: as) = (if a = .net .tickS then 1 else 0) + ticksS as := by
+      simp only [ticksS, List.filter_cons]; split <;> simp_all <;> omega
+    have := ih (τ.step W D a) (by rw [k2]; omega) (by rw [k3]; omega)
+    simp only [TSys.run, List.foldl_cons] at this ⊢
+    obtain ⟨r1, r2, r3⟩ := this
+    refine ⟨?_, by rw [r2, k2, tc]; omega, by rw [r3, k3, ts]; omega⟩
+    rw [r1, k1]
+    cases a <;> simp [untimed, Sys.run]
+
+/-- once both endpoints are Connected no network or timer action changes that -/
+theorem reach0_connected_stable : (reach0.all fun σ =>
+    !bothConnected σ || (allActs σ).all fun a => bothConnected (σ.step W0 a)) = true := by decide +kernel
+
+theorem onDeadline_connected (e : Ep) (h : e.conn = .connected) : onDeadline e = e := by
+  simp [onDeadline, h]
+
+theorem connected_step {σ : Sys} (hσ : σ ∈ reach0) (hb : bothConnected σ = true) (a : Act) :
+    bothConnected (σ.step W0 a) = true := by
+  have h := reach0_connected_stable
+  simp only [List.all_eq_true, Bool.or_eq_true, Bool.not_eq_true'] at h
+  have h' := h σ hσ
+  rcases h' with h' | h'
+  · rw [hb] at h'; cases h'
+  · cases a with
+    | toS i =>
+      by_cases hi : i < σ.sentC.length
+      · exact h' _ (by simp [allActs, hi])
+      · rw [step_noop_toS W0 σ i (by omega)]; exact hb
+    | toC i =>
+      by_cases hi : i < σ.sentS.length
+      · exact h' _ (by simp [allActs, hi])
+      · rw [step_noop_toC W0 σ i (by omega)]; exact hb
+    | tickC => exact h' _ (by simp [allActs])
+    | tickS => exact h' _ (by simp [allActs])
+
+/-- … and neither does a deadline, whenever it fires -/
+theorem connected_tstep (D : Nat) {τ : TSys} (hσ : τ.σ ∈ reach0) (hb : bothConnected τ.σ = true) (a : TAct) :
+    (τ.step W0 D a).σ ∈ reach0 ∧ bothConnected (τ.step W0 D a).σ = true := by
+  have hc : τ.σ.c.conn = .connected := by simp [bothConnected] at hb; exact hb.1
+  have hs : τ.σ.s.conn = .connected := by simp [bothConnected] at hb; exact hb.2
+  cases a with
+  | net a =>
+    have : (τ.step W0 D (.net a)).σ = τ.σ.step W0 a := by cases a <;> rfl
+    rw [this]
+    exact ⟨closed_step reach0_closed hσ a, connected_step hσ hb a⟩
+  | deadlineC =>
+    have : (τ.step W0 D .deadlineC).σ = τ.σ := by
+      simp only [TSys.step]; split
+      · simp [Sys.deadlineC, onDeadline_connected _ hc]
+      · rfl
+    rw [this]; exact ⟨hσ, hb⟩
+  | deadlineS =>
+    have : (τ.step W0 D .deadlineS).σ = τ.σ := by
+      simp only [TSys.step]; split
+      · simp [Sys.deadlineS, onDeadline_connected _ hs]
+      · rfl
+    rw [this]; exact ⟨hσ, hb⟩
+
+theorem connected_trun (D : Nat) : ∀ (acts : List TAct) (τ : TSys), τ.σ ∈ reach0 → bothConnected τ.σ = true →
+    bothConnected (τ.run W0 D acts).σ = true := by
+  intro acts
+  induction acts with
+  | nil => intro τ _ hb; exact hb
+  | cons a as ih =>
+    intro τ hσ hb
+    have := connected_tstep D hσ hb a
+    exact ih _ this.1 this.2
+
+theorem foldl_step_mem {W : World} {R : List Sys} (hc : closedB W R = true) (f : Nat → Act) :
+    ∀ (l : List Nat) (σ : Sys), σ ∈ R → l.foldl (fun x i => x.step W (f i)) σ ∈ R := by
+  intro l
+  induction l with
+  | nil => intro σ h; exact h
+  | cons a as ih => intro σ h; exact ih _ (closed_step hc h _)
+
+theorem fairRound_mem {W : World} {R : List Sys} (hc : closedB W R = true) {σ : Sys} (h : σ ∈ R) : fairRound W σ ∈ R := by
+  unfold fairRound
+  exact foldl_step_mem hc Act.toC _ _ (foldl_step_mem hc Act.toS _ _ (closed_step hc (closed_step hc h _) _))
+
 end RtcModel.DtlsFlights
